@@ -141,6 +141,26 @@ func init() {
 		w.ex.Thread("S1", func() { w.n.Send(id, "a") })
 		w.ex.Thread("S2", func() { w.n.Send(id, "b"); w.n.Send(id, "c") })
 	})
+	// messages sent to a meta process as soon as SpawnMeta has returned, i.e. while its start-up goroutine is on its way
+	c01Scenario("meta-spawn-then-send", pb, func(w *World) {
+		r := &rec{name: "R"}
+		w.recs["R"] = r
+		mp := &metaProbe{r: r, start: &vsched.Gate{}}
+		w.spawnProbe("PR", probeCfg{onMsg: func(p *probe, from gen.PID, m any) error {
+			if m != "spawn" {
+				return nil
+			}
+			id, err := p.SpawnMeta(mp, gen.MetaOptions{})
+			if err != nil {
+				panic(err)
+			}
+			for _, x := range []string{"a", "b", "c"} {
+				p.Send(id, x)
+			}
+			return nil
+		}}, gen.ProcessOptions{})
+		w.ex.Thread("SP", func() { w.n.Send(w.pids["PR"], "spawn") })
+	})
 	// a process is killed (by pid, and by a forced stop of everything registered) while it is still in Init
 	for _, how := range []string{"kill", "kill-all-listed"} {
 		how := how
